@@ -224,6 +224,47 @@ pub fn gen_c03(c: &mut Ctx) {
                     p!(c, "swapadj {} cp {} {}", ty, b.show(), i);
                 }
             }
+            // tables whose words are related to their neighbours: word k+1 is word k with an
+            // in-word variable complemented / two in-word variables exchanged, or its complement,
+            // or equal to it - XORs and multiplexers over a word-selecting variable, parity
+            // (seed C03-n: a per-word memo in flip_inplace keyed by the word it has just written)
+            if (7..=10).contains(&n) {
+                let saved = c.enter(&format!("C03-related-{}-{}", n, ty));
+                for i in 0..6usize {
+                    let g = gen_tab(&mut c.rng, 6);
+                    let hi = 6 + c.rng.below(n - 6);
+                    let j = (i + 1 + c.rng.below(5)) % 6;
+                    let tabs = [
+                        // x_hi selects between g and g with x_i complemented
+                        Tab::from_fn(n, |m| g.bit((m & 63) ^ (((m >> hi) & 1) << i))),
+                        // ... between g and g with x_i, x_j exchanged
+                        Tab::from_fn(n, |m| {
+                            let x = m & 63;
+                            let y = if (m >> hi) & 1 != 0 {
+                                let (bi, bj) = ((x >> i) & 1, (x >> j) & 1);
+                                (x & !(1 << i) & !(1 << j)) | (bj << i) | (bi << j)
+                            } else {
+                                x
+                            };
+                            g.bit(y)
+                        }),
+                        // x_i xor x_hi, parity of all
+                        Tab::from_fn(n, |m| ((m >> i) ^ (m >> hi)) & 1 != 0),
+                        Tab::from_fn(n, |m| m.count_ones() % 2 == 1),
+                    ];
+                    for t in &tabs {
+                        for v in [i, j, hi] {
+                            p!(c, "flip {} ip {} {}", ty, t.show(), v);
+                            p!(c, "cof {} {} {}", ty, t.show(), v);
+                        }
+                        p!(c, "flip {} cp {} {}", ty, t.show(), i);
+                        p!(c, "swap {} ip {} {} {}", ty, t.show(), i, j);
+                        p!(c, "swap {} cp {} {} {}", ty, t.show(), i, hi);
+                        p!(c, "fromcof {} {} {} {}", ty, t.show(), tabs[0].show(), i);
+                    }
+                }
+                c.leave(saved);
+            }
         }
     }
 }
@@ -1487,6 +1528,41 @@ pub fn gen_c12(c: &mut Ctx) {
             }
         }
     }
+    // the same table words at two sizes, one call after the other: an implicant of g over a
+    // variables, then that cube with the literal x_a added against g embedded in b > a variables
+    // (which is false wherever x_a is true) - seed C12-n: a memo of the last function's off-set
+    // keyed by its blocks without the size; also sizes 5 .. 8 for implies_lut itself
+    {
+        let saved = c.enter("C12-implieslut-sizes");
+        for a in 1..=6usize {
+            for b in (a + 1)..=7usize {
+                for _ in 0..2 {
+                    let g = gen_tab(&mut c.rng, a);
+                    let ones: Vec<usize> = (0..(1usize << a)).filter(|m| g.bit(*m)).collect();
+                    if ones.is_empty() {
+                        continue;
+                    }
+                    let m = *c.rng.pick(&ones) as u32;
+                    let tot = (1u32 << a) - 1;
+                    let c1 = (m & tot, !m & tot);
+                    let c2 = (c1.0 | (1 << a), c1.1);
+                    let mut gb = Tab::zero(b);
+                    gb.w[0] = g.w[0];
+                    p!(c, "seq cube implieslut {} {} ;; cube implieslut {} {}", sc(c1), g.show(), sc(c2), gb.show());
+                    p!(c, "seq cube implieslut {} {} ;; cube implieslut {} {}", sc(c2), gb.show(), sc(c1), g.show());
+                    p!(c, "seq cube implieslut {} {} ;; cube implieslut {} {}", sc(c1), g.show(), sc(c1), gb.show());
+                }
+            }
+        }
+        for n in 5..=8usize {
+            for _ in 0..20 {
+                let t = gen_tab(&mut c.rng, n);
+                let a = if c.rng.coin() { rand_cube(&mut c.rng, n) } else { rand_cube_sparse(&mut c.rng, n) };
+                p!(c, "cube implieslut {} {}", sc(a), t.show());
+            }
+        }
+        c.leave(saved);
+    }
     // up to 32 variables, 32-bit assignments
     let cnt = if c.thorough { 20000 } else { 2000 };
     for _ in 0..cnt {
@@ -1608,6 +1684,16 @@ fn gen_long_lists(c: &mut Ctx, what: &str) {
             p!(c, "{} tolut {} {}", what, n, j);
             p!(c, "{} info {} {}", what, n, j);
             p!(c, "{} value {} {} {:x}", what, n, j, c.rng.below(1 << n));
+            // the operators on long lists (seed C15-l: a clean-up that only runs above 64 cubes)
+            let half: Vec<String> = (0..len / 2 + 1).map(|_| c.rng.pick(&pool).clone()).collect();
+            let h = half.join(",");
+            let op = match what { "esop" => "xor", _ => "or" };
+            p!(c, "{} {} {} {} {}", what, op, n, j, h);
+            p!(c, "{} {} {} {} {}", what, op, n, h, h);
+            p!(c, "{} {} {} {} {}", what, op, n, j, j);
+            if what == "esop" {
+                p!(c, "esop not {} {}", n, j);
+            }
         }
     }
     c.leave(saved);
@@ -2140,6 +2226,28 @@ pub fn gen_c17(c: &mut Ctx) {
                     p!(c, "fromcof D {} {} 0", a.show(), b.show());
                 }
                 p!(c, "bdd D {} {} {}", n, a.show(), b.show());
+                // the same block content at both sizes (a function and its embedding in more
+                // variables, the two constant zeros): guards that look at the blocks, or run after
+                // a deduplication keyed on them, let these through (seed C17-l)
+                if n <= 6 && n2 <= 6 {
+                    let lo = n.min(n2);
+                    let w = a.w[0] & mask_of(lo);
+                    let (a2, b2) = (Tab::new(n, vec![w]), Tab::new(n2, vec![w]));
+                    for (x, y) in [(&a2, &b2), (&Tab::zero(n), &Tab::zero(n2))] {
+                        p!(c, "bdd D {} {} {}", n, x.show(), y.show());
+                        p!(c, "bdd D {} {} {} {}", n, x.show(), y.show(), x.show());
+                        p!(c, "bdd D {} {} {} {}", n, x.show(), x.show(), y.show());
+                        p!(c, "bdd D {} {} {} {} {}", n, y.show(), x.show(), y.show(), x.show());
+                        for op in ["and", "or", "xor"] {
+                            p!(c, "bin D {} {} {} {}", op, c.rng.below(14), x.show(), y.show());
+                        }
+                        if n > 0 && n2 > 0 {
+                            p!(c, "fromcof D {} {} 0", x.show(), y.show());
+                        }
+                        p!(c, "cmp D {} {}", x.show(), y.show());
+                        p!(c, "eq D {} {}", x.show(), y.show());
+                    }
+                }
             }
         }
     }
